@@ -7,6 +7,11 @@
 
 #[path = "../../vmon/src/ctx.rs"]
 mod ctx;
+// the sentence monitors of vmon, compiled against THIS feature configuration of vaporetto
+#[path = "../../vmon/src/p_sentence.rs"]
+mod p_sentence;
+#[path = "../../vmon/src/sut.rs"]
+mod sut;
 
 use std::io::Write;
 
@@ -74,6 +79,25 @@ fn main() {
     ctx::install_panic_hook();
     let mut ctx = Ctx::new(&events, journal.as_deref(), seed);
     ctx.tier_thorough = tier == "thorough";
+    let workload = args.get(1).cloned().unwrap_or_default();
+    if workload != "C13" {
+        ctx.note("features", J::s(features()));
+        match workload.as_str() {
+            "C02x" => p_sentence::run_c02x(&mut ctx, from, to),
+            "C02r" => p_sentence::run_c02r(&mut ctx, from, to),
+            "C03" => p_sentence::run_c03(&mut ctx, from, to),
+            "C04" => p_sentence::run_c04(&mut ctx, from, to),
+            "C05x" => p_sentence::run_c05x(&mut ctx, from, to),
+            "C05r" => p_sentence::run_c05r(&mut ctx, from, to),
+            "C05h" => p_sentence::run_c05h(&mut ctx, from, to),
+            w => {
+                eprintln!("unknown workload {w}");
+                std::process::exit(64);
+            }
+        }
+        ctx.finish();
+        return;
+    }
     let mut trace = std::io::BufWriter::new(std::fs::File::create(format!("{events}.trace")).expect("trace"));
     ctx.note("features", J::s(features()));
     for k in from..to {
@@ -91,6 +115,20 @@ fn main() {
                 let (model, _) = Model::read_slice(&bytes).map_err(|e| ("C13:model_rejected".to_string(), J::s(format!("{e}"))))?;
                 Predictor::new(model, tags).map_err(|e| ("C13:predictor_rejected".to_string(), J::s(format!("{e}"))))
             };
+            {
+                // the model file format does not depend on the feature configuration
+                let (model, rest) = Model::read_slice(&bytes).map_err(|e| ("C13:model_rejected".to_string(), J::s(format!("{e}"))))?;
+                if !rest.is_empty() {
+                    return Err(("C13:model_read_leaves_bytes_in_this_build".into(), J::i(rest.len())));
+                }
+                let again = model.to_vec().map_err(|e| ("C13:model_to_vec_failed".to_string(), J::s(format!("{e}"))))?;
+                if again != bytes {
+                    return Err(("C13:model_round_trip_differs_in_this_build".into(), J::obj(vec![("original_len", J::i(bytes.len())), ("reserialised_len", J::i(again.len()))])));
+                }
+                if Model::read_slice(&bytes[..bytes.len() - 1]).is_ok() {
+                    return Err(("C13:truncated_model_accepted_in_this_build".into(), J::i(bytes.len() - 1)));
+                }
+            }
             let p = build(false)?;
             // serialised twin (every feature set has its own layout: exercises C14's path per build)
             let ser = p.serialize_to_vec().map_err(|e| ("C13:serialize_failed".to_string(), J::s(format!("{e}"))))?;
